@@ -397,8 +397,10 @@ fn one_case(c: &mut Ctx, mode: Mode, n: usize, fs: &[u32], and: i32, xor: i32, o
     }
 }
 
+/// the 27 cost triples of {1,2,3}^3 in turn (a counter, not a random draw: every triple comes round every 27 cases)
 fn cost_triple(c: &mut Ctx) -> (i32, i32, i32) {
-    (1 + c.rng.below(3) as i32, 1 + c.rng.below(3) as i32, 1 + c.rng.below(3) as i32)
+    let k = (c.id as usize / 2 + c.rng.below(2) * 13) % 27;
+    (1 + (k % 3) as i32, 1 + ((k / 3) % 3) as i32, 1 + (k / 9) as i32)
 }
 
 pub fn c18(c: &mut Ctx) {
@@ -480,6 +482,24 @@ pub fn c18(c: &mut Ctx) {
         for &mode in &modes {
             let (a, x, o) = if f % 2 == 0 { (1, 1, 1) } else { cost_triple(c) };
             one_case(c, mode, 3, &[f], a, x, o);
+        }
+    }
+    // parity-like functions (an exclusive cube over 2 or 3 variables is the cheap form) under every cost triple
+    for f in [0x96u32, 0x69, 0x3c, 0x5a, 0x66, 0x99, 0x7e, 0x81, 0x16, 0x68] {
+        for a in 1..=3 {
+            for x in 1..=3 {
+                for o in 1..=3 {
+                    if thorough || (a + x + o) % 2 == 1 || (a, x, o) == (1, 3, 1) || (a, x, o) == (1, 1, 1) {
+                        one_case(c, Mode::Sopes, 3, &[f], a, x, o);
+                    }
+                }
+            }
+        }
+    }
+    for (f, g) in [(0x96u32, 0x80u32), (0x69, 0x01), (0x6, 0x8)] {
+        let n = if f > 0xf { 3 } else { 2 };
+        for (a, x, o) in [(1, 3, 1), (1, 1, 1), (2, 3, 1), (1, 2, 1), (1, 3, 2)] {
+            one_case(c, Mode::Sopes, n, &[f, g], a, x, o);
         }
     }
     // random lists up to n = 4 with 1..3 outputs
